@@ -54,7 +54,12 @@ def _cases(shard):
                op('kill_leaf', slot), op('grow_leaf', slot), op('grow_leaf', slot, st.sampled_from(['end_first', 'desc'])),
                op('kill_next_leaf', slot), op('kill_key', slot),
                op('kill_tail', slot, st.integers(1, 3)), op('kill_head', slot, st.integers(1, 3)),
-               op('idx', slot, st.integers(8, 30)), op('idx', slot, st.integers(-30, -1))]
+               op('idx', slot, st.integers(8, 30)), op('idx', slot, st.integers(-30, -1)),
+               # a lazy sequence from the LAST key of one leaf to the FIRST key of the next (its recorded offsets are
+               # "large" and "small"), then the keys in front of its start are deleted and it is measured again
+               op('mk_edge', slot, st.sampled_from(['keys'] + (['values', 'items'] if is_map else [])), st.integers(0, 8)),
+               op('mk_edge', slot, st.sampled_from(['keys'] + (['values', 'items'] if is_map else [])), st.integers(0, 8)),
+               op('kill_front', slot), op('kill_front', slot), op('len', slot), op('bool', slot)]
         mut = H.op_strategy(fam, kind, ktype, 0)
         # the container itself - or a lazy sequence / iterator over it, whole or a range - is the operand of its own
         # bulk mutation or of a set operation: the library's internal cursors run over the container being changed
@@ -104,6 +109,7 @@ class Cursor:
         self.obj = obj          # lazy sequence or None
         self.it = it
         self.last_key = None
+        self.start_key = None
         self.steps = 0
         self.mutations_seen = 0
 
@@ -199,8 +205,26 @@ def run_case(case, ctx):
                 cursors[slot].mutations_seen = mutations
                 classes.append('cursor:' + ck)
                 continue
-            if name in ('next', 'idx', 'slice', 'len', 'list', 'kill_leaf', 'grow_leaf', 'kill_next_leaf', 'kill_key',
-                        'kill_tail', 'kill_head'):
+            if name == 'mk_edge':
+                _, slot, ck, li = op
+                lvs = [lf for lf in leaves() if lf]
+                if len(lvs) < 2:
+                    continue
+                li = li % (len(lvs) - 1)
+                kmn, kmx = lvs[li][-1], lvs[li + 1][0]
+                try:
+                    seq = getattr(t, ck)(kmn, kmx)
+                    cursors[slot] = Cursor(ck[0], seq, iter(seq))
+                except Exception as e:
+                    raise Violation('%s: creating the cursor raised %s: %s' % (desc, type(e).__name__, e),
+                                    dict(sig, what='create-raises'))
+                cursors[slot].mutations_seen = mutations
+                cursors[slot].start_key = kmn
+                cursors[slot].last_key = kmn
+                classes.append('cursor:edge_to_edge:%d_keys_in_start_leaf' % min(len(lvs[li]), 4))
+                continue
+            if name in ('next', 'idx', 'slice', 'len', 'bool', 'list', 'kill_leaf', 'grow_leaf', 'kill_next_leaf', 'kill_key',
+                        'kill_tail', 'kill_head', 'kill_front'):
                 cur = cursors.get(op[1])
                 if cur is None:
                     continue
@@ -223,7 +247,16 @@ def run_case(case, ctx):
                     except Exception as e:
                         raise Violation('%s raised %s: %s' % (desc, type(e).__name__, e),
                                         dict(sig, what='bad-exception', exc=type(e).__name__))
-                elif cur.obj is not None and name in ('idx', 'slice', 'len', 'list'):
+                elif name == 'kill_front':
+                    if cur.start_key is not None:
+                        for lf in leaves():
+                            if lf and F.sortkey(lf[0]) <= F.sortkey(cur.start_key) <= F.sortkey(lf[-1]):
+                                doomed = [k for k in lf if F.sortkey(k) < F.sortkey(cur.start_key)]
+                                for k in doomed:
+                                    mutate('popd' if is_map else 'discard', k, lv.model.get(k) if is_map else None)
+                                if doomed:
+                                    classes.append('keys_in_front_of_a_sequence_start_deleted')
+                elif cur.obj is not None and name in ('idx', 'slice', 'len', 'bool', 'list'):
                     if isinstance(cur.obj, (list, tuple)):
                         continue        # leaf kinds return plain lists
                     try:
@@ -237,6 +270,8 @@ def run_case(case, ctx):
                             n = len(cur.obj)
                             if not isinstance(n, int) or n < 0:
                                 raise Violation('%s: len() = %r' % (desc, n), dict(sig, what='bad-len'))
+                        elif name == 'bool':
+                            bool(cur.obj)
                         else:
                             for r in list(cur.obj):
                                 check_entry(cur, r, desc, sig)
